@@ -61,3 +61,8 @@ def m_iff(I, ctx, args, kwargs, node):
     if is_sym(a) or is_sym(b):
         return zbool(a) == zbool(b)
     return a == b
+
+
+@models.model(ghost.close)
+def m_close(I, ctx, args, kwargs, node):
+    return I.eq(args[0], args[1], ctx)
